@@ -30,10 +30,25 @@ def stable_tests_pass(repo, retries=2):
     return ok, missing
 
 
+_NETNS = []
+
+
+def _private_netns():
+    if not _NETNS:
+        try:
+            _NETNS.append(subprocess.run(['unshare', '-n', 'true'], capture_output=True).returncode == 0)
+        except OSError:
+            _NETNS.append(False)
+    return _NETNS[0]
+
+
 def _stable_tests_pass(repo):
     out = os.path.join(repo, '.junit.xml')
-    subprocess.run(['/venv/bin/python', '-m', 'pytest', '-q', '-p', 'no:cacheprovider', '--timeout=900',
-                    '--junitxml=' + out], cwd=repo, stdout=subprocess.DEVNULL, stderr=subprocess.DEVNULL,
+    cmd = ['/venv/bin/python', '-m', 'pytest', '-q', '-p', 'no:cacheprovider', '--timeout=900', '--junitxml=' + out]
+    if _private_netns():
+        # the suite binds a fixed abstract socket name: a private network namespace keeps concurrent runs apart
+        cmd = ['unshare', '-n', 'sh', '-c', '(ip link set lo up 2>/dev/null || true); exec "$@"', 'sh'] + cmd
+    subprocess.run(cmd, cwd=repo, stdout=subprocess.DEVNULL, stderr=subprocess.DEVNULL,
                    env=dict(os.environ, PYTHONDONTWRITEBYTECODE='1'))
     import xml.etree.ElementTree as ET
     base = json.load(open('/root/.vp/BASELINE.json'))
